@@ -27,6 +27,8 @@ CHECKS = {
     'C03': ('checks.composite', 'C03'),
     'C06': ('checks.composite', 'C06'),
     'C05': ('checks.composite', 'C05'),
+    'C11': ('checks.docs_check', 'C11'),
+    'C20': ('checks.docs_check', 'C20'),
     'C13': ('checks.numexpr', 'C13'),
     'C14': ('checks.c14', 'C14'),
     'C16': ('checks.c16', 'C16'),
